@@ -1,15 +1,17 @@
 #!/bin/sh
 # usage: recheck_seeds.sh [name-substring]   - applies every /verif/seeded/*/patch.diff to a scratch copy of /repo and runs
-# the property's quick check against it; prints caught/MISSED per seed. Scratch copy is removed afterwards.
+# the property's quick check against it; prints caught/MISSED per seed. RECHECK_JOBS seeds run at a time (default 3;
+# solver timeouts are CPU-time limits, so verdicts do not depend on the load). Scratch copies are removed afterwards.
 export GOFLAGS=-mod=mod GOPROXY=off GOSUMDB=off GOTOOLCHAIN=local
-sc=/var/tmp/recheck.$$; rm -rf "$sc"; mkdir -p "$sc"
-for d in /verif/seeded/*${1}*/; do
-  name=$(basename "$d"); prop=$(echo "$name" | cut -c1-3)
-  rm -rf "$sc/repo"; cp -r /repo "$sc/repo"
-  (cd "$sc/repo" && git apply "$d/patch.diff") || { echo "$name: patch does not apply"; continue; }
+one() {
+  d="$1"; name=$(basename "$d"); prop=$(echo "$name" | cut -c1-3)
+  sc=/var/tmp/recheck.$$.$name; rm -rf "$sc"; mkdir -p "$sc"; cp -r /repo "$sc/repo"
+  if ! (cd "$sc/repo" && git apply "$d/patch.diff") 2>/dev/null; then echo "$name: patch does not apply"; rm -rf "$sc"; return; fi
   out=$(VERIF_REPO="$sc/repo" VERIF_EVIDENCE="$sc" VERIF_REPLAYS="$sc/replays" /verif/check "$prop" quick 2>&1 | grep -v "^info")
   n=$(echo "$out" | grep -c "^VIOLATION property=$prop")
-  first=$(echo "$out" | grep "^FAILED" | head -1 | cut -c1-160)
+  first=$(echo "$out" | grep "^FAILED\|^VACUOUS" | head -1 | cut -c1-160)
   if [ "$n" -gt 0 ]; then echo "caught  $name ($n): $first"; else echo "MISSED  $name: $(echo "$out" | tail -1 | cut -c1-120)"; fi
-done
-rm -rf "$sc"
+  rm -rf "$sc"
+}
+if [ "$1" = "--one" ]; then one "$2"; exit 0; fi
+ls -d /verif/seeded/*${1}*/ | xargs -P "${RECHECK_JOBS:-3}" -n 1 "$0" --one
